@@ -164,6 +164,17 @@ add(
     "DESIGN.md §4 C11",
 )
 
+add(
+    "C09", "exploration",
+    "Hypothesis rule-based state machine over annotate histories with a running model; invariant (superset / holder-wise year span) checked after every step through lint --json and the tool's reader",
+    "About 1000 histories of up to 6 annotate invocations per quick run on files that start empty, with hand-written headers (own style, block form, "
+    "foreign style) or a .license sibling; steps vary holders (recurring with other years, compact and spaced ranges), licences, contributors, prefixes, "
+    "--style, --multi-line, --no-replace, --merge-copyrights, --skip-existing and templates; after each successful step nothing declared before may be "
+    "missing, and skipped / failing steps must not change a byte.",
+    "Histories are cut before the header approaches the 4 KiB read window (C02's subject); contributors are tracked only while every template used renders them.",
+    "DESIGN.md §4 C09",
+)
+
 NOT_BUILT = "check not built yet in this revision of /verif (planned in DESIGN.md §4; property-based testing applies)"
 
 
